@@ -54,11 +54,17 @@ def case_strategy(draw, tier):
         pick = rng.integers(0, nm, nf)
         fixed = mob[pick].copy()
         restr = [[int(i), int(pick[i])] for i in range(nf)][:draw(st.integers(0, nf))]
+    tiny = not coincident and draw(st.integers(0, 11)) == 0
+    if tiny:
+        # coordinates in small units (everything 1e-4 of the usual size): the overlap measure is of order 1e-8 and
+        # below, new lowest measures differ from the previous one far below any printed precision
+        mob = mob * 1e-4
+        fixed = fixed * 1e-4
     deform = draw(ac.deformation_types(nm, allow_none=False))
     big = tier == "thorough" and draw(st.integers(0, 9)) == 0
     steps = draw(st.integers(150, 2000)) if big else draw(st.integers(1, 150))
     lengths = [float(np.linalg.norm(mob[a] - mob[b])) for a, b in edges]
-    width = draw(st.sampled_from([0.1, 0.3, 1.0]))
+    width = draw(st.sampled_from([0.1, 0.3, 1.0])) * (1e-4 if tiny else 1.0)
     if not coincident and draw(st.integers(0, 24)) == 0:
         # a slow search: the target is 15-25 nm away and is approached by translations of 2 pm, about half of which find a
         # new lowest measure - tens of thousands of steps, more than a thousand times the budget, before the budget of
